@@ -57,6 +57,8 @@ pub enum RTy {
 
 #[derive(Clone, Debug)]
 pub struct Sig {
+    /// spelling of the concrete dependency type (ident, path, generic instantiation)
+    pub concrete_ty: &'static str,
     pub deps: Deps,
     pub bounds: Vec<usize>,
     pub bounds_in_where: usize,
@@ -77,6 +79,8 @@ pub struct Sig {
     pub is_async: bool,
     pub is_unsafe: bool,
     pub extern_c: bool,
+    /// spelled as a bare `extern` (which means `extern "C"`)
+    pub extern_bare: bool,
     pub maybe_send_off: bool,
     pub vis: &'static str,
 }
@@ -202,9 +206,9 @@ impl Sig {
             Deps::RefImpl if self.deps_maybe_sized => format!("deps: &(impl ?Sized + {ib})"),
             Deps::RefImpl => format!("deps: &(impl {ib})"),
             Deps::ValImpl => format!("deps: impl {ib}"),
-            Deps::ConcreteRef => "deps: &Conf".into(),
-            Deps::ConcreteRefNamed => "deps: &'d Conf".into(),
-            Deps::ConcreteVal => "deps: Conf".into(),
+            Deps::ConcreteRef => format!("deps: &{}", self.concrete_ty),
+            Deps::ConcreteRefNamed => format!("deps: &'d {}", self.concrete_ty),
+            Deps::ConcreteVal => format!("deps: {}", self.concrete_ty),
             Deps::NoDeps => return None,
         })
     }
@@ -218,7 +222,7 @@ impl Sig {
         for (i, p) in self.params.iter().enumerate() {
             ps.push(format!("p{i}: {}", self.pty_src(p)));
         }
-        let quals = format!("{}{}{}", if self.is_async { "async " } else { "" }, if self.is_unsafe { "unsafe " } else { "" }, if self.extern_c { "extern \"C\" " } else { "" });
+        let quals = format!("{}{}{}", if self.is_async { "async " } else { "" }, if self.is_unsafe { "unsafe " } else { "" }, if self.extern_c && self.extern_bare { "extern " } else if self.extern_c { "extern \"C\" " } else { "" });
         let vis = if self.vis.is_empty() { String::new() } else { format!("{} ", self.vis) };
         format!("{vis}{quals}fn {name}{g}({}){}{w} {{ todo!() }}", ps.join(", "), self.rty_src())
     }
@@ -231,15 +235,15 @@ impl Sig {
             Deps::RefGeneric if self.deps_lifetime_bound => "&'d A".into(),
             Deps::RefGeneric | Deps::RefImpl | Deps::NoDeps => format!("&{lt} A"),
             Deps::ValGeneric | Deps::ValImpl => "A".into(),
-            Deps::ConcreteRef => format!("&{lt} Conf"),
-            Deps::ConcreteRefNamed => "&'d Conf".into(),
-            Deps::ConcreteVal => "Conf".into(),
+            Deps::ConcreteRef => format!("&{lt} {}", self.concrete_ty),
+            Deps::ConcreteRefNamed => format!("&'d {}", self.concrete_ty),
+            Deps::ConcreteVal => self.concrete_ty.to_string(),
         }
     }
 
     fn self_ty(&self) -> &'static str {
         if self.concrete() {
-            "Conf"
+            self.concrete_ty
         } else {
             "A"
         }
@@ -498,6 +502,7 @@ pub fn gen_sig(t: &mut Tape, excl: &Excl) -> Sig {
     }
     let has_const = params.iter().any(|p| *p == PTy::ArrConst);
     Sig {
+        concrete_ty: *t.pick(&["Conf", "Conf", "inner::PConf", "GConf<i32>", "self::inner::PConf"]),
         deps,
         bounds,
         bounds_in_where,
@@ -514,6 +519,7 @@ pub fn gen_sig(t: &mut Tape, excl: &Excl) -> Sig {
         is_async,
         is_unsafe,
         extern_c,
+        extern_bare: t.chance(1, 3),
         maybe_send_off,
         vis: *t.pick(&["", "pub", "pub(crate)"]),
     }
@@ -540,7 +546,7 @@ pub struct Case {
 fn header() -> String {
     let mut s = String::from(
         "#![allow(warnings)]\nuse ::core::marker::PhantomData;\nuse ::core::future::Future;\n\
-         pub struct App;\npub struct Conf { pub s: String }\npub type A = ::entrait::Impl<App>;\n\
+         pub struct App;\npub struct Conf { pub s: String }\npub mod inner { pub struct PConf { pub s: String } }\npub struct GConf<T> { pub s: String, pub t: T }\npub type A = ::entrait::Impl<App>;\n\
          fn out<F: Future>(_: &F) -> PhantomData<F::Output> { PhantomData }\nfn is_send<T: Send>(_: &T) {}\n",
     );
     for b in 0..3 {
